@@ -36,6 +36,10 @@ Roots(z) == UNION {Pairs3, {[properties |-> [a |-> s]] : s \in Subs}}
                     d \in {Str("a"), Num(R_1)}}
             \cup {[properties |-> [a |-> [required |-> <<"x", "n">>, properties |-> [x |-> TrueS, n |-> [properties |-> [x |-> IntS @@ [default |-> Str("a")]]]]]],
                    required |-> <<"a">>]}
+            \* "never fills a required property" on subschemas whose declared type is NOT object (the walk over properties
+            \* does not look at type; neither does the rule about required)
+            \cup {[properties |-> [a |-> [properties |-> [x |-> [default |-> Num(R_1)], y |-> [default |-> Num(R_2)]], required |-> <<"x">>] @@ t]] :
+                    t \in {[type |-> "string"], [types |-> <<"array", "null">>], [type |-> "object"], [types |-> <<"object", "null">>], <<>>}}
             \* three levels BELOW a subschema that declares its own default: default -> (no default) -> default;
             \* the inserted default is completed with containers for the default-less level too
             \cup {[properties |-> [a |-> [default |-> d, properties |-> [n |-> [properties |-> [x |-> [default |-> Num(R_2)]]]]]]] :
